@@ -22,6 +22,29 @@ def _simple_body(g):
         body = body[1:]
     if not body:
         return None
+    # a procedure (no value returned anywhere): `if c: A; return` followed by REST is `if c: A else: REST`
+    valued = any(isinstance(x, ast.Return) and x.value is not None and not (isinstance(x.value, ast.Constant) and x.value.value is None) for x in walk_no_nested(g.node))
+    if not valued:
+        def fold(stmts):
+            out = []
+            for i, s_ in enumerate(stmts):
+                if isinstance(s_, ast.Return):
+                    return out                     # nothing after a bare return runs
+                if isinstance(s_, ast.If) and not s_.orelse and s_.body and isinstance(s_.body[-1], ast.Return):
+                    rest = fold(stmts[i + 1:])
+                    new_if = ast.copy_location(ast.If(test=s_.test, body=fold(s_.body[:-1]) or [ast.copy_location(ast.Pass(), s_)], orelse=rest), s_)
+                    out.append(new_if)
+                    return out
+                if isinstance(s_, ast.If):
+                    s2 = ast.copy_location(ast.If(test=s_.test, body=fold(s_.body) or [ast.copy_location(ast.Pass(), s_)], orelse=fold(s_.orelse)), s_)
+                    out.append(s2)
+                else:
+                    out.append(s_)
+            return out
+        import copy as _copy
+        body = fold(_copy.deepcopy(body))
+        if any(isinstance(x, ast.Return) for s_ in body for x in ast.walk(s_)):
+            return None
     ret = None
     if isinstance(body[-1], ast.Return):
         ret = body[-1]
@@ -32,7 +55,7 @@ def _simple_body(g):
             if isinstance(s, ast.If):
                 if not plain(s.body) or not plain(s.orelse):
                     return False
-            elif not isinstance(s, (ast.Assign, ast.AugAssign, ast.Expr, ast.Pass)):
+            elif not isinstance(s, (ast.Assign, ast.AugAssign, ast.Expr, ast.Pass, ast.Raise, ast.Assert)):
                 return False
         return True
     if not plain(body):
@@ -78,7 +101,7 @@ def inlined_view(ctx, fn, max_inlines=8):
         if counter[0] >= max_inlines or any(isinstance(a, ast.Starred) for a in call.args) or any(k.arg is None for k in call.keywords):
             return None
         g, bound_self = callee_of(call)
-        if g is None or g is fn or g.decorators:
+        if g is None or g is fn or any(d != 'staticmethod' for d in g.decorators):
             return None
         sb = _simple_body(g)
         if sb is None:
@@ -189,8 +212,19 @@ def inlined_view(ctx, fn, max_inlines=8):
         return out
 
     node.body = block(node.body)
-    if counter[0] == 0:
+    # records (namedtuples of this module) that, after inlining, live and die inside the function become one local per field
+    from .model import record_types, scalarize_records
+    for parent in ast.walk(node):
+        for child in ast.iter_child_nodes(parent):
+            child._parent = parent
+    sra = scalarize_records(node, record_types(fn.module.tree))
+    if counter[0] == 0 and not sra:
         return fn
+    if sra:
+        # the per-field tuples that replace `for v in record` / `a, b = record` are literal sequences again
+        from .model import unroll_literal_loops
+        wrapper = ast.Module(body=[node], type_ignores=[])
+        node = unroll_literal_loops(wrapper).body[0]
     ast.fix_missing_locations(node)
     for parent in ast.walk(node):
         for child in ast.iter_child_nodes(parent):
